@@ -4,6 +4,7 @@ complete linkage return exactly the classes of equal keys (no hypothesis left ab
 -/
 import Verif.Model.Turchin
 import Verif.Props.C06Cor
+import Verif.Props.C06Avg
 namespace Verif.Turchin
 open Verif.Cluster Verif.Align
 
@@ -83,6 +84,35 @@ theorem C06_turchin_complete (cfg : Cluster.Cfg) (hl : cfg.link = .complete) (hu
     by_cases hxy : x = y
     · rw [hxy]
     · exact (dist_le_iff isVowel h (w x) (w y) t h0 h1).mp (a1 c hc x hx y hy hxy)
+  · intro p q hp hq hne x hx y hy hk
+    exact a2 p q hp hq hne x hx y hy ((dist_le_iff isVowel h (w x) (w y) t h0 h1).mpr hk)
+
+/-- **C06, consonant-class method, average linkage** (the default of `LexStat.cluster`): the same classes; the two laws of the
+mean at the threshold are those proved for the integers (`meanLe_int`, `meanGt_int`) – exact on a 0/1 matrix -/
+theorem C06_turchin_average (cfg : Cluster.Cfg) (hl : cfg.link = .average) (hu : cfg.unordered = false)
+    (w : Nat → List Nat) (t : Int) (h0 : 0 ≤ t) (h1 : t < 1) (n : Nat) :
+    let M := fun x y => dist isVowel h (w x) (w y)
+    (∀ c ∈ flatCluster cfg M t n, ∀ x ∈ c.2, ∀ y ∈ c.2, key isVowel h (w x) = key isVowel h (w y)) ∧
+    (∀ p q (hp : p < (flatCluster cfg M t n).length) (hq : q < (flatCluster cfg M t n).length), p ≠ q →
+      ∀ x ∈ (flatCluster cfg M t n)[p].2, ∀ y ∈ (flatCluster cfg M t n)[q].2,
+        key isVowel h (w x) ≠ key isVowel h (w y)) := by
+  intro M
+  have hrefl : ∀ x, M x x ≤ t := fun x => by
+    show dist isVowel h (w x) (w x) ≤ t
+    rw [dist_self]; exact h0
+  have hsymm : ∀ x y, M x y ≤ t → M y x ≤ t := by
+    intro x y hxy
+    show dist isVowel h (w y) (w x) ≤ t
+    rw [dist_symm]; exact hxy
+  have htrans : ∀ x y z, M x y ≤ t → M y z ≤ t → M x z ≤ t := by
+    intro x y z hxy hyz
+    have e1 := (dist_le_iff isVowel h (w x) (w y) t h0 h1).mp hxy
+    have e2 := (dist_le_iff isVowel h (w y) (w z) t h0 h1).mp hyz
+    exact (dist_le_iff isVowel h (w x) (w z) t h0 h1).mpr (e1.trans e2)
+  obtain ⟨a1, a2⟩ := C06_classes_average cfg hl hu M t n hrefl hsymm htrans (meanLe_int t) (meanGt_int t)
+  constructor
+  · intro c hc x hx y hy
+    exact (dist_le_iff isVowel h (w x) (w y) t h0 h1).mp (a1 c hc x hx y hy)
   · intro p q hp hq hne x hx y hy hk
     exact a2 p q hp hq hne x hx y hy ((dist_le_iff isVowel h (w x) (w y) t h0 h1).mpr hk)
 
